@@ -16,6 +16,7 @@ import (
 	"github.com/specterops/dawgs/util"
 	"github.com/specterops/dawgs/util/atomics"
 	"github.com/specterops/dawgs/util/channels"
+	"github.com/specterops/dawgs/util/verifhook"
 )
 
 // Driver is a function that drives sending queries to the graph and retrieving vertexes and edges. Traversal
@@ -309,6 +310,7 @@ func (s Traversal) BreadthFirst(ctx context.Context, plan Plan) error {
 					} else if tx.GraphQueryMemoryLimit() > 0 && pathTree.SizeOf() > tx.GraphQueryMemoryLimit() {
 						return fmt.Errorf("%w - Limit: %.2f MB - Memory In-Use: %.2f MB", ops.ErrGraphQueryMemoryLimit, tx.GraphQueryMemoryLimit().Mebibytes(), pathTree.SizeOf().Mebibytes())
 					} else {
+						verifhook.At("bf.w.driving", workerID, nextDescent)
 						// Traverse the descending relationships of the current segment
 						if descendingSegments, err := plan.Driver(traversalCtx, tx, nextDescent); err != nil {
 							return err
@@ -316,13 +318,16 @@ func (s Traversal) BreadthFirst(ctx context.Context, plan Plan) error {
 							for _, descendingSegment := range descendingSegments {
 								// Add to the descent count before submitting to the channel
 								descentCount.Add(1)
+								verifhook.At("bf.w.incremented", workerID, descendingSegment)
 								channels.Submit(traversalCtx, segmentWriterC, descendingSegment)
+								verifhook.At("bf.w.submitted", workerID, descendingSegment)
 							}
 						}
 					}
 
 					// Mark descent for this segment as complete
 					descentCount.Add(-1)
+					verifhook.At("bf.w.decremented", workerID)
 
 					if !channels.Submit(traversalCtx, completionC, struct{}{}) {
 						return nil
@@ -341,6 +346,7 @@ func (s Traversal) BreadthFirst(ctx context.Context, plan Plan) error {
 	descentCount.Add(1)
 	if channels.Submit(traversalCtx, segmentWriterC, pathTree.Root) {
 		for {
+			verifhook.At("bf.c.waiting")
 			if _, ok := channels.Receive(traversalCtx, completionC); !ok || descentCount.Load() == 0 {
 				break
 			}
